@@ -1,6 +1,7 @@
 \* named deviation (must be refuted): cursor step of skin.rs before 1a36590 (40 bytes per 48-byte submesh) -> CursorIsEmitted violated
 CONSTANT SubmeshStep = 40
 CONSTANT AnimBoneRule = "table"
+CONSTANT RelocAdvanceAlways = FALSE
 CONSTANT ViewBatchBytes = 24
 INIT Init
 NEXT Next
